@@ -46,6 +46,9 @@ def gen_scenarios(seed, tier):
         if i % 6 == 5:
             yield gen_comb(rng, i)
             continue
+        if i % 8 == 3:
+            yield gen_two_completions(rng, i)
+            continue
         kind = KINDS[i % 5] if i % 6 < 5 else "map"
         if i % 12 == 11:
             kind = "timeout"
@@ -68,6 +71,42 @@ def gen_scenarios(seed, tier):
                     if op[0] == "addcb" and op[2] == "submit":
                         op[2] = "plain"
         yield d
+
+
+def gen_two_completions(rng, i):
+    """two completion sources reach one future at the same virtual instant - a client's cancel() and the resolution coming from
+    below (the delegate finishing, the poll function yielding) - while the future has several slow done-callbacks: the loser's
+    set_* / cancel arrives on a future whose callbacks are being invoked by the winner"""
+    kind = rng.choice(["poll", "poll", "map", "timeout", "throttle", "retry", "flat_map"])
+    lay = sc.gen_layer(rng, kind)
+    if kind == "poll":
+        lay = ["poll", {"poll_script": [["at", 0.5, rng.choice(["yield", "yield", "err"])]], "interval": 0.5, "cancel_fn": rng.random() < 0.3,
+                        "cancel_script": [[["ret", True]]]}]
+        script = [[["ret", 7]]]
+        releaser = [["sleep", 0.5]]
+    else:
+        if kind == "throttle":
+            lay[1].update(block=False, count=rng.choice([1, 2, None]))
+        if kind == "retry":
+            lay = ["retry", {"max_attempts": 1, "sleep": 1.0, "exponent": 1.0, "max_sleep": 3.0, "exception_base": ["E0"]}]
+        if kind == "timeout":
+            lay = ["timeout", {"timeout": 10.0}]
+        script = [[["waitev", "g0"], rng.choice([["ret", 7], ["raise", "E1"]])]]
+        releaser = [["sleep", 0.5], ["setev", "g0"]]
+    c0 = [["submit", "k0", script]]
+    for _ in range(rng.randint(2, 3)):
+        c0.append(["addcb", "k0", rng.choice(["slow", "slow", "plain"])])
+    c0 += [["sleep", 0.5], ["cancel", "k0"], ["addcb", "k0", "plain"]]
+    c1 = releaser + [["result", "k0", 5.0]]
+    clients = [c0, c1]
+    if rng.random() < 0.4:
+        clients.append([["sleep", 0.5], ["cancel", "k0"], ["addcb", "k0", "slow"]])
+    d = dict(kind="stack", idx=i, base=rng.choice(["simpool1", "simpool2"]), layers=[lay], clients=clients, tail=20.0,
+             seed=rng.randrange(1 << 30), family="two-completions")
+    d.update(schedule_modes(rng))
+    if rng.random() < 0.5:
+        d.update(mode="hold", p_switch=rng.choice([0.0, 0.02, 0.1]), trace_lines=True)
+    return d
 
 
 def gen_comb(rng, i):
